@@ -38,6 +38,14 @@ def run(tier):
     scht, _ = gen_schedules(wd, "gen-snap-trim", gt, simulate=1500 if thorough else 150, depth=51)
     v.distinct += distinct_count(scht)
     conform(v, wd, "snap-trim-sim", gt, scht)
+    # situation witness: a snapshot is due for a version while another replica has already added
+    # the next one (racing syncs) - the snapshot must still hold the state of ITS version (a
+    # snapshot taken after one more pull would carry the later version's effects: seed C12j)
+    gsr = consts(Replicas={"r1", "r2"}, Props={"p", "q"}, Racing=True, MaxPending=1, MaxLong=0,
+                 MaxEdits=0, MaxChain=8, Urg={"none", "high"})
+    w = gen_situations(wd, "sit-snaprace", gsr, "snaprace", limit=60 if thorough else 12, timeout=600)
+    v.distinct += distinct_count(w)
+    conform(v, wd, "sit-snaprace", gsr, w)
     if thorough:
         conform(v, wd, "snap-sim-sqlite", g, sch[:300], storage="sqlite")
 
